@@ -143,7 +143,11 @@ def prop_mix(ch, ctx):
     ctx.cell('mix:op=' + op)
     site = 'mix.' + op
     if op == 'mix_from':
-        ctx.call(site, recv.mix_from, inlets, energy_balance=eb, conserve_phases=conserve, region=region)
+        # "any collection": list, tuple or a one-shot iterator (conserve_phases documents a second pass over it)
+        cont = ch.choice('container', ['list', 'list', 'tuple', 'iter']) if not conserve else 'list'
+        arg = inlets if cont == 'list' else tuple(inlets) if cont == 'tuple' else iter(list(inlets))
+        if cont != 'list': ctx.cell('mix:container=' + cont)
+        ctx.call(site, recv.mix_from, arg, energy_balance=eb, conserve_phases=conserve, region=region)
         result = recv
     elif op == 'sum':
         cls = tmo.Stream if sum_cls_S else tmo.MultiStream
@@ -189,8 +193,11 @@ def prop_split(ch, ctx):
     # hold material from an earlier split of a source with the same phases (non-empty phases within the source's
     # phases), because converting an outlet to a phase set lacking one of its non-empty phases is outside C12's domain.
     okinds = ('S',) if (src['kind'] == 'S' and not eb) else ('S', 'M')
+    # the second outlet may sit on the other side: one outlet on the feed's package, the other on a foreign one
+    xp2 = xp if ch.choice('s2.xpkg', ['same', 'same', 'flip']) == 'same' else not xp
     for t in ('s1', 's2'):
-        pk = [p for p in chem.SUPERSETS if p != src['pkg']] if xp else [src['pkg']]
+        foreign = xp if t == 's1' else xp2
+        pk = [p for p in chem.SUPERSETS if p != src['pkg']] if foreign else [src['pkg']]
         if ch.bool(f'{t}.fresh'):
             sp = vs.draw_spec(ch, t, pk, kinds=okinds, T=(280., 400.), allow_empty=True)
             sp['flows'] = [[0.0] * len(r) for r in sp['flows']]
@@ -224,9 +231,10 @@ def prop_split(ch, ctx):
     sv = np.ones(n) * np.array(split, float)
     want1 = {c: feed[c] * sv[i] for i, c in enumerate(cas)}
     want2 = {c: feed[c] - feed[c] * sv[i] for i, c in enumerate(cas)}
-    region = f'src={vs.kind_tag(src)},out={outs[0]["kind"]}{outs[1]["kind"]},xpkg={int(xp)},split={skind},eb={int(eb)}'
+    region = f'src={vs.kind_tag(src)},out={outs[0]["kind"]}{outs[1]["kind"]},xpkg={int(xp)}{int(xp2) if xp2 != xp else ""},split={skind},eb={int(eb)}'
     ctx.cell('split:' + ('array' if skind == 'array' else 'scalar'))
     if xp: ctx.cell('split:xpkg')
+    if xp != xp2: ctx.cell('split:outlets-on-different-sides')
     ctx.cell('split:src=' + src['kind'])
     arg = np.array(split, float) if skind == 'array' else split
     ctx.call('split.split_to', s.split_to, s1, s2, arg, energy_balance=eb, region=region)
@@ -265,6 +273,18 @@ def prop_separate(ch, ctx):
     want = vs.add_totals(*[t for i, t in enumerate(tot) if i != k]) if n > 1 else {}
     other_before = vs.by_phase(inlets[k])
     scale = max([1.0] + list(vs.add_totals(*tot).values()))
+    if rkind == 'M' and ch.choice('other.own-view', [False, False, False, True]):
+        # separating one of the mixture's own phase streams out of it (ms.separate_out(ms['g'])) leaves the other phases
+        ph = ch.choice('view.phase', list(recv.phases))
+        view = recv[ph]
+        rows = vs.by_phase(recv)
+        want = vs.add_totals(*[rows[q] for q in rows if q != ph]) if len(rows) > 1 else {}
+        ctx.cell('separate:own-phase-stream')
+        region += ',other=own-view'
+        ctx.call('separate.separate_out', recv.separate_out, view, energy_balance=False, region=region)
+        check_totals(ctx, vs.totals(recv), want, 'separate.separate_out', region, scale)
+        if any(rows[ph].values()): ctx.nontriv(['separate-view', ph, [skey(s) for s in specs]])
+        return
     ctx.call('separate.separate_out', recv.separate_out, inlets[k], energy_balance=False, region=region)
     check_totals(ctx, vs.totals(recv), want, 'separate.separate_out', region, scale)
     if vs.by_phase(inlets[k]) != other_before:
@@ -389,6 +409,13 @@ def prop_copy_flow(ch, ctx):
                 req = ((nme in chosen) != exclude) and p == phase
                 if req and (sa[p][c] != 0 or da[p][c] != b):
                     ctx.fail(f'copy_flow|{region}|phase-move', f'{nme} in {p}: src {b!r}->{sa[p][c]!r}, dest {da[p][c]!r}')
+                # (phase, IDs) selects entries of that phase row only: everything else is either moved as a whole
+                # (exclude=True) or stays in the source untouched (exclude=False) - never removed without being copied
+                selected = (p == phase and nme in chosen)
+                if not exclude and not selected and sa[p][c] != b:
+                    ctx.fail(f'copy_flow|{region}|phase-lost', f'{nme} in {p} not selected (phase={phase}), but the source went from {b!r} to {sa[p][c]!r}')
+                if sa[p][c] == 0 and not _close(da[p][c], b):
+                    ctx.fail(f'copy_flow|{region}|phase-lost', f'{nme} in {p}: removed from the source ({b!r}) but destination row has {da[p][c]!r}')
     if any(stot.values()):
         ctx.nontriv(['copy', skey(src), skey(dest), idk, sorted(chosen) if idk != 'all' else None, exclude,
                      None if phase is ... else phase])
